@@ -25,7 +25,7 @@ THEOREMS = [NS + t for t in [
     "C10_counterexample_empty_list", "C10_counterexample_openapi_min_int64",
     "C10_counterexample_union_default_dropped_in_go", "C10_counterexample_inline_enum_default_dropped_in_go",
     "C10_counterexample_nested_override", "C10_counterexample_struct_default_enum_member",
-    "C10_counterexample_python_enum_ref_override_ignored",
+    "C10_counterexample_python_enum_ref_override_ignored", "C10_counterexample_samekind_union_zero_default",
 ]]
 FILES = HARNESS_BASE + ["lab_*.go", "src_*.go", "c10_*.go"]
 STATS = collections.Counter()
@@ -78,7 +78,13 @@ def classify(r):
     return v[:200]
 
 
+KNOWN_IDS = ""   # ids of the recorded C10 findings: constructs whose failure is a recorded defect are
+#                   only generated once the finding is in known_findings.json (see c10Needs in the harness)
+
+
 def stream_rows(hb, stream="c10-rows", **kw):
+    if stream == "c10-rows":
+        kw.setdefault("known", KNOWN_IDS)
     """the lab shares the Go build cache and the machine with other checks: retry a run that died of
     an environmental error (cache entry trimmed under the linker, …)"""
     last = None
@@ -158,7 +164,9 @@ def fits_census(c, rows):
 
 
 def main():
+    global KNOWN_IDS
     c = Check("C10")
+    KNOWN_IDS = ",".join(f["id"] for f in c.known)
     c.trusted = [
         "Lean 4.33 kernel; axioms per theorem in obligation_list",
         "PROVED (all schemas/objects/fields/fuel): a field of the post-chain IR whose default fits (goFits/pyFits: decidable conditions on field type x dynamic type of the default) holds its declared default/constant in the constructor's JSON, Go and Python, and the two agree; NOT modelled: the front-ends (how `default`/`*v` becomes Type.Default) — the IR comes from the real front-ends and chains in the lab; defaults they drop are found by the source-side oracle only",
@@ -193,12 +201,13 @@ def main():
         # recorded violation and shows the rows of the case it names.  Exit 1 iff the failure reproduces.
         want = ""
         if c.replay.startswith("pinned:"):
-            rows = harness(hb, "c10-rows", pinned=1, id=c.replay[7:], seed=c.seed, tier="replay")
+            rows = harness(hb, "c10-rows", pinned=1, id=c.replay[7:], seed=c.seed, tier="replay", known="*")
         else:
             rp = json.load(open(c.replay))
             print(json.dumps({k: rp[k] for k in rp if k in ("kind", "request", "impl", "model", "oracle", "class", "args", "broken")}, indent=1)[:3000])
             args = dict(rp.get("args") or {})
             args["tier"] = "replay"
+            args.setdefault("known", KNOWN_IDS)
             rows = harness(hb, "c10-passes" if rp.get("stream") == "c10-passes" else "c10-rows", **args)
             want = rp.get("request", "")
         case = want.split(" ")[1].split(".")[0] if len(want.split(" ")) > 1 else ""
